@@ -28,7 +28,7 @@ def kindStr : Kind → String
 def fieldOf (j : Json) : Except String Field := do
   let k ← getStr j "kind"
   pure { name := ← getStr j "name", kind := ← kindOf (String.ofList k), mname := ← optStr j "mname",
-         ns := ← optStr j "ns", cls := ← optNat j "cls" }
+         ns := ← optStr j "ns", cls := ← optNat j "cls", wrapper := ← optStr j "wrapper" }
 
 def classOf (j : Json) : Except String ClassDef := do
   let hasNs ← getBool j "has_ns"
@@ -81,7 +81,7 @@ def errStr : Err → String
 
 def jVar (v : Var) : Json :=
   Json.arr #[jNat v.index, jStr v.name, jStr v.localName, jStr v.qname, jList jStr v.namespaces,
-    Json.str (kindStr v.kind), jOpt jNat v.cls]
+    Json.str (kindStr v.kind), jOpt jNat v.cls, jOpt jStr v.wrapper]
 
 def jMeta (m : Meta) : Json :=
   jObj [("cls", jNat m.cls), ("qname", jStr m.qname), ("ns", jOpt jStr m.nsUri),
@@ -97,7 +97,7 @@ def jOut : Out → Json
   | .raised e => jObj [("err", Json.str (errStr e))]
 
 def jState (s : State) : Json :=
-  jObj [("cache", jList (fun (c, m) => Json.arr #[jNat c, jStr m.qname, jOpt jStr m.nsUri]) s.cache),
+  jObj [("cache", jList (fun ((c, p), m) => Json.arr #[jNat c, jOpt jStr p, jStr m.qname, jOpt jStr m.nsUri]) s.cache),
         ("xsi", jList (fun (k, l) => Json.arr #[jStr k, jList jNat l]) s.xsi),
         ("stamp", jNat s.sysModules)]
 
